@@ -184,6 +184,101 @@ func init() {
 			failShape("retrieveFiles: compressed branch not recognised")
 		}
 
+		// --- the error branches: storeCompressed (what happens to the temporary tarball when the
+		// archive loop returned an error) and storeFile (what happens when RecursiveLink failed)
+		errBranch := func(fn, callPrefix string, vars map[string]string) []string {
+			fd := findFunc(f, "dirCache", fn)
+			var found *ast.IfStmt
+			for _, st := range fd.Body.List {
+				is, ok := st.(*ast.IfStmt)
+				if !ok || is.Init == nil {
+					continue
+				}
+				as, ok := is.Init.(*ast.AssignStmt)
+				if !ok || len(as.Rhs) != 1 || !strings.HasPrefix(cnExpr(as.Rhs[0]), callPrefix) {
+					continue
+				}
+				if found != nil {
+					failShape("%s: two `if err := %s..` statements", fn, callPrefix)
+				}
+				if cnExpr(is.Cond) != "err != nil" || is.Else != nil {
+					failShape("%s: error test of %s is `%s` (or has an else)", fn, callPrefix, cnExpr(is.Cond))
+				}
+				found = is
+			}
+			if found == nil {
+				failShape("%s: no `if err := %s..; err != nil` statement", fn, callPrefix)
+			}
+			var out []string
+			for _, st := range found.Body.List {
+				switch x := st.(type) {
+				case *ast.ReturnStmt:
+					out = append(out, "EReturn")
+				case *ast.ExprStmt:
+					call, ok := x.X.(*ast.CallExpr)
+					if !ok {
+						failShape("%s: error branch statement %s", fn, c12StmtText(st))
+					}
+					switch fun := cnExpr(call.Fun); {
+					case strings.HasPrefix(fun, "log."):
+						out = append(out, "EWarn")
+					case (fun == "fs.RemoveAll" || fun == "os.RemoveAll" || fun == "os.Remove") && len(call.Args) == 1:
+						v, ok := vars[cnExpr(call.Args[0])]
+						if !ok {
+							failShape("%s: error branch removes %s", fn, cnExpr(call.Args[0]))
+						}
+						out = append(out, `ERemoveAll "`+v+`"`)
+					default:
+						failShape("%s: error branch calls %s", fn, fun)
+					}
+				default:
+					failShape("%s: error branch statement %s", fn, c12StmtText(st))
+				}
+			}
+			return out
+		}
+		// storeCompressed(target, filename, files) is called with filename = tmpDir (checked above)
+		sc := findFunc(f, "dirCache", "storeCompressed")
+		scParams := []string{}
+		for _, p := range sc.Type.Params.List {
+			for _, n := range p.Names {
+				scParams = append(scParams, n.Name)
+			}
+		}
+		if strings.Join(scParams, ",") != "target,filename,files" {
+			failShape("storeCompressed: parameters are %v", scParams)
+		}
+		compErr := errBranch("storeCompressed", "cache.storeCompressed2(target, filename, files)", map[string]string{"filename": "tmp"})
+		plainErr := errBranch("storeFile", "fs.RecursiveLink(outFile, cachedFile)", map[string]string{})
+		// storeCompressed2 must hand the loop's error back: every `return err` inside the walk loop
+		sc2 := findFunc(f, "dirCache", "storeCompressed2")
+		loopReturnsErr := false
+		ast.Inspect(sc2.Body, func(n ast.Node) bool {
+			rs, ok := n.(*ast.RangeStmt)
+			if !ok {
+				return true
+			}
+			for _, st := range rs.Body.List {
+				is, ok := st.(*ast.IfStmt)
+				if !ok || is.Init == nil || cnExpr(is.Cond) != "err != nil" || len(is.Body.List) != 1 {
+					failShape("storeCompressed2: loop statement %s", c12StmtText(st))
+				}
+				as, ok := is.Init.(*ast.AssignStmt)
+				if !ok || len(as.Rhs) != 1 || !strings.HasPrefix(cnExpr(as.Rhs[0]), "fs.Walk(") {
+					failShape("storeCompressed2: loop statement %s", c12StmtText(st))
+				}
+				r, ok := is.Body.List[0].(*ast.ReturnStmt)
+				if !ok || len(r.Results) != 1 || cnExpr(r.Results[0]) != "err" {
+					failShape("storeCompressed2: a walk error is not returned")
+				}
+				loopReturnsErr = true
+			}
+			return false
+		})
+		if !loopReturnsErr {
+			failShape("storeCompressed2: walk loop not recognised")
+		}
+
 		var b strings.Builder
 		b.WriteString(genHeader)
 		b.WriteString("Inductive phase := PRemoveAll (p : string) | PStoreInto (p : string) | PRename (a b : string).\n")
@@ -193,6 +288,10 @@ func init() {
 		b.WriteString("(* retrieve(): an error that is not IsNotExist gives false, otherwise `found`; the compressed branch of\n   retrieveFiles reports found = this value together with retrieveCompressed's error *)\n")
 		b.WriteString("Definition notexist_error_keeps_found : bool := true.\n")
 		b.WriteString("Definition compressed_found_with_error : bool := " + compressedFound + ".\n")
+		b.WriteString("(* error branches, in statement order: storeCompressed after `if err := cache.storeCompressed2(..); err != nil`\n   (\"tmp\" = its filename parameter = Store's temporary path) and storeFile after `if err := fs.RecursiveLink(..); err != nil` *)\n")
+		b.WriteString("Inductive errstmt := EWarn | ERemoveAll (p : string) | EReturn.\n")
+		b.WriteString("Definition compressed_error_branch : list errstmt := [" + strings.Join(compErr, "; ") + "].\n")
+		b.WriteString("Definition plain_link_error_branch : list errstmt := [" + strings.Join(plainErr, "; ") + "].\n")
 		return b.String()
 	}
 }
